@@ -1,5 +1,6 @@
 """Triage only (not a check).  Run with the pre-built extension copy:
 PYTHONPATH=/repo/build/lib.linux-x86_64-cpython-312 /venv/bin/python <this file>"""
+import _overlay
 import numpy as np
 from pysph.base.particle_array import ParticleArray
 from pysph.base.utils import get_particle_array
